@@ -43,7 +43,8 @@ def errStr : Err → String
 /-- Koto's display of a value (`{a: 1, b: {}}`), module references resolved through the cache -/
 def display (cache : Path → Option Entry) : Nat → V → String
   | _, .int n => toString n
-  | _, .core n => if n ≥ 90 ∧ n ≤ 92 then "||" else "<core>"
+  | _, .core _ => "<core>"
+  | _, .native _ => "||"
   | _, .null => "null"
   | _, .fn _ _ => "||"
   | 0, .mref _ => "<deep>"
@@ -57,7 +58,8 @@ def display (cache : Path → Option Entry) : Nat → V → String
 /-- canonical value text (`kvh::canon::value`) -/
 def canon (cache : Path → Option Entry) : Nat → V → String
   | _, .int n => s!"i{n}"
-  | _, .core n => if n ≥ 90 ∧ n ≤ 92 then "<native>" else "<core>"
+  | _, .core _ => "<core>"
+  | _, .native _ => "<native>"
   | _, .null => "null"
   | _, .fn _ _ => "<fn>"
   | 0, .mref _ => "<deep>"
@@ -181,7 +183,7 @@ def handle (line : String) : String :=
       let cfg : Cfg := { runImportTests := it == 1, hostTests := ht == 1, exportAlias := al == 1,
                          canonFile := cf.nat? == some 1, exportStrAlias := sa.nat? == some 1,
                          stem := fun n => ((stems.find? (fun x => x.1 == n)).map (·.2)).getD n,
-                         prelude := fun n => if pre.contains n then some (.core n) else none }
+                         prelude := fun n => if pre.contains n then some (if n ≥ 90 ∧ n ≤ 92 then .native n else .core n) else none }
       let fs := mkFS files
       match runOps cfg fs (fuelFor files) ops init with
       | none => "FUEL"
